@@ -216,7 +216,7 @@ Proof.
 Qed.
 
 (* ---- the edits do nothing where the tag does not occur ---- *)
-Lemma otags_cutl_incl news (P : btree -> Prop) o y :
+Lemma otags_cutl_incl news o y :
   oall (fun b => In y (tags (img (bcutl news b))) -> In y (tags (img b))) o ->
   In y (otags (cutl_slot news (bcutl news) o)) -> In y (otags o).
 Proof.
@@ -228,7 +228,7 @@ Lemma tags_bcutl_incl news y : forall b, In y (tags (img (bcutl news b))) -> In 
 Proof.
   induction b as [g l r IHl IHr] using btree_ind2. rewrite bcutl_B, !tags_img_B.
   intros [H|H]; [left; exact H|right]. apply in_app_or in H. apply in_or_app.
-  destruct H as [H|H]; [left|right]; eapply (otags_cutl_incl news (fun _ => True)); eassumption.
+  destruct H as [H|H]; [left|right]; eapply (otags_cutl_incl news); eassumption.
 Qed.
 
 Theorem bcutl_absent news : forall b,
@@ -282,4 +282,579 @@ Proof.
     intros Hin. apply H. exact (otags_in_l g _ r x _ eq_refl Hin).
   - apply (option_map_absent _ _ _ IHr). destruct r as [x|]; cbn [oall]; [|exact I].
     intros Hin. apply H. exact (otags_in_r g l _ x _ eq_refl Hin).
+Qed.
+
+(* ========================================================================================== *)
+(* 3. re-parenting: what an accepted `c.parent = np` does to the slots, and hence to the trees *)
+
+(* the slot that receives c *)
+Definition tgt (np : option id) (i : nat) (q : id) (j : nat) : bool :=
+  match np with Some p => Nat.eqb q p && Nat.eqb j i | None => false end.
+
+(* s' is s with c taken out of the slot it occupied and (np = Some p) written into slot i of p, the
+   first slot of p that is empty once c has left *)
+Record moved (s s' : bheap) (c : id) (np : option id) (i : nat) : Prop := {
+  mv_W    : BWF s;
+  mv_W'   : BWF s';
+  mv_size : bsize s' = bsize s;
+  mv_slot : forall q j, slot (bkids s' q) j = if tgt np i q j then Some c else rm c (slot (bkids s q) j);
+  mv_np   : forall p, np = Some p ->
+              p <> c /\ ~ In c (bancestors s p) /\ i < 2
+              /\ rm c (slot (bkids s p) i) = None
+              /\ (forall j, j < i -> rm c (slot (bkids s p) j) <> None)
+}.
+
+Lemma tgt_true np i q j : tgt np i q j = true -> np = Some q /\ j = i.
+Proof.
+  unfold tgt. destruct np as [p|]; [|discriminate]. intros H. apply andb_true_iff in H.
+  destruct H as [H1 H2]. apply Nat.eqb_eq in H1. apply Nat.eqb_eq in H2. subst. split; reflexivity.
+Qed.
+
+Lemma tgt_other np i q j : is_np np (Some q) = false -> tgt np i q j = false.
+Proof. unfold is_np, tgt. destruct np as [p|]; [|reflexivity]. cbn [tag_is]. intros ->. reflexivity. Qed.
+
+Section Moved.
+  Variables (s s' : bheap) (c : id) (np : option id) (i : nat).
+  Hypothesis M : moved s s' c np i.
+
+  Let W := mv_W _ _ _ _ _ M.
+  Let W' := mv_W' _ _ _ _ _ M.
+
+  (* inside the moved subtree no slot is touched *)
+  Lemma inside_slots y j : In (Some y) (tags (img (bsubtree s c))) ->
+    slot (bkids s' y) j = slot (bkids s y) j.
+  Proof.
+    intros Hy. apply (bsubtree_members s c y W) in Hy. rewrite (mv_slot _ _ _ _ _ M).
+    destruct (tgt np i y j) eqn:Et.
+    - exfalso. apply tgt_true in Et. destruct Et as [Enp _].
+      destruct (mv_np _ _ _ _ _ M y Enp) as [H1 [H2 _]]. destruct Hy as [->|Hy]; [apply H1; reflexivity|exact (H2 Hy)].
+    - apply rm_absent. intros H. apply (bw_down s W) in H. destruct (kid_not_anc s c y W H) as [H1 H2].
+      destruct Hy as [->|Hy]; [apply H1; reflexivity|exact (H2 Hy)].
+  Qed.
+
+  (* (a) the moved subtree is intact *)
+  Theorem moved_intact : bsubtree s' c = bsubtree s c.
+  Proof.
+    apply bsubtree_frame_slots; [exact (mv_size _ _ _ _ _ M)|]. intros y Hy. split; apply inside_slots; exact Hy.
+  Qed.
+
+  (* (b) a subtree containing neither the old nor the new parent is unchanged *)
+  Theorem moved_frame x :
+    (forall q, bpar s c = Some q -> ~ In (Some q) (tags (img (bsubtree s x)))) ->
+    (forall p, np = Some p -> ~ In (Some p) (tags (img (bsubtree s x)))) ->
+    bsubtree s' x = bsubtree s x.
+  Proof.
+    intros Hq Hp. apply bsubtree_frame_slots; [exact (mv_size _ _ _ _ _ M)|].
+    assert (G : forall y j, In (Some y) (tags (img (bsubtree s x))) -> slot (bkids s' y) j = slot (bkids s y) j).
+    { intros y j Hy. rewrite (mv_slot _ _ _ _ _ M). destruct (tgt np i y j) eqn:Et.
+      - exfalso. apply tgt_true in Et. destruct Et as [Enp _]. exact (Hp y Enp Hy).
+      - apply rm_absent. intros H. apply (bw_down s W) in H. exact (Hq y H Hy). }
+    intros y Hy. split; apply G; exact Hy.
+  Qed.
+
+  (* a child, other than c, of a node outside the moved subtree is outside the moved subtree *)
+  Lemma outside_child r j k :
+    ~ In (Some r) (tags (img (bsubtree s c))) -> rm c (slot (bkids s r) j) = Some k ->
+    ~ In (Some k) (tags (img (bsubtree s c))).
+  Proof.
+    intros Hr Hk Hin. apply rm_Some in Hk. destruct Hk as [Hk Hne]. apply (bw_down s W) in Hk.
+    apply (bsubtree_members s c k W) in Hin. destruct Hin as [->|Hin]; [apply Hne; reflexivity|].
+    rewrite (BWF_bancestors_unfold s k r W Hk) in Hin. apply Hr. apply (bsubtree_members s c r W).
+    destruct Hin as [->|Hin]; [left; reflexivity|right; exact Hin].
+  Qed.
+
+  (* the whole edit: below every node outside the moved subtree, cut c out and write it into the
+     first empty slot of the new parent *)
+  Theorem moved_is_surgery r :
+    ~ In (Some r) (tags (img (bsubtree s c))) ->
+    bsubtree s' r = bgraft_opt np (bsubtree s c) (bcut c (bsubtree s r)).
+  Proof.
+    revert r. apply (bheap_ind s' (fun r => ~ In (Some r) (tags (img (bsubtree s c))) ->
+                       bsubtree s' r = bgraft_opt np (bsubtree s c) (bcut c (bsubtree s r))) W').
+    intros r IHk Hr.
+    set (E := fun k => bgraft_opt np (bsubtree s c) (bcutl [Some c] (bsubtree s k))).
+    assert (Hkid : forall j k, rm c (slot (bkids s r) j) = Some k -> bsubtree s' k = E k).
+    { intros j k Hk. pose proof (mv_slot _ _ _ _ _ M r j) as Hs. destruct (tgt np i r j) eqn:Et.
+      - exfalso. apply tgt_true in Et. destruct Et as [Enp ->].
+        destruct (mv_np _ _ _ _ _ M r Enp) as [_ [_ [_ [Hn _]]]]. congruence.
+      - apply (IHk j k); [rewrite Hs; exact Hk|exact (outside_child r j k Hr Hk)]. }
+    assert (Hm : forall j, tgt np i r j = false ->
+              option_map (bsubtree s') (slot (bkids s' r) j) = option_map E (rm c (slot (bkids s r) j))).
+    { intros j Et. rewrite (mv_slot _ _ _ _ _ M), Et. apply option_map_ext_in. intros k Hk. exact (Hkid j k Hk). }
+    rewrite (bsubtree_unfold s' r W'), (bsubtree_unfold s r W). unfold bcut. rewrite bcutl_B.
+    rewrite !cutl_slot_sub, !rmset_one, bgraft_opt_B, !option_map_map. fold E.
+    pose proof moved_intact as Hint.
+    destruct (is_np np (Some r)) eqn:Enp.
+    - destruct np as [p|]; [|discriminate]. cbn [is_np tag_is] in Enp. apply Nat.eqb_eq in Enp. subst r.
+      destruct (mv_np _ _ _ _ _ M p eq_refl) as [_ [_ [Hi [Hnone Hmin]]]].
+      assert (Hc : slot (bkids s' p) i = Some c).
+      { rewrite (mv_slot _ _ _ _ _ M). cbn [tgt]. rewrite !Nat.eqb_refl. reflexivity. }
+      destruct i as [|[|i']]; [| |lia].
+      + rewrite Hc, Hnone. cbn [option_map bfill fst snd]. rewrite Hint. f_equal.
+        apply Hm. cbn [tgt]. rewrite Nat.eqb_refl. reflexivity.
+      + destruct (rm c (slot (bkids s p) 0)) as [k0|] eqn:E0; [|exfalso; apply (Hmin 0); [lia|exact E0]].
+        rewrite Hc, Hnone. cbn [option_map bfill fst snd]. rewrite Hint. f_equal.
+        rewrite Hm by (cbn [tgt]; rewrite Nat.eqb_refl; reflexivity). rewrite E0. reflexivity.
+    - rewrite !Hm by (apply tgt_other; exact Enp). reflexivity.
+  Qed.
+
+  (* (d) / (3): the old parent when it is not the new one and the new parent is not below it: the slot of
+     c is emptied, the other slot keeps its subtree *)
+  Theorem moved_old_parent q :
+    bpar s c = Some q -> np <> Some q ->
+    (forall p, np = Some p -> ~ In (Some p) (tags (img (bsubtree s q)))) ->
+    bsubtree s' q = B (Some q) (option_map (bsubtree s) (rm c (slot (bkids s q) 0)))
+                               (option_map (bsubtree s) (rm c (slot (bkids s q) 1))).
+  Proof.
+    intros Eq Hne Hp. rewrite (bsubtree_unfold s' q W').
+    assert (G : forall j, option_map (bsubtree s') (slot (bkids s' q) j)
+                          = option_map (bsubtree s) (rm c (slot (bkids s q) j))).
+    { intros j. rewrite (mv_slot _ _ _ _ _ M). destruct (tgt np i q j) eqn:Et.
+      - exfalso. apply tgt_true in Et. destruct Et as [Enp _]. exact (Hne Enp).
+      - apply option_map_ext_in. intros k Hk. apply rm_Some in Hk. destruct Hk as [Hk _].
+        apply (bw_down s W) in Hk. apply moved_frame.
+        + intros q0 E0. rewrite Eq in E0. injection E0 as <-. exact (parent_not_in_child s q k W Hk).
+        + intros p Ep Hin. apply (Hp p Ep). exact (tags_child_incl s q k _ W Hk Hin). }
+    rewrite !G. reflexivity.
+  Qed.
+End Moved.
+
+(* (c) the new parent: its two slots are the old ones without c, each old occupant with c cut out of
+   it, and the subtree of c written into the first empty one; one of the two was empty *)
+Theorem moved_new_parent s s' c p i : moved s s' c (Some p) i ->
+  let X := fun k => bcut c (bsubtree s k) in
+  let L := option_map X (rm c (slot (bkids s p) 0)) in
+  let R := option_map X (rm c (slot (bkids s p) 1)) in
+  bsubtree s' p = B (Some p) (fst (bfill (bsubtree s c) L R)) (snd (bfill (bsubtree s c) L R))
+  /\ (L = None \/ R = None).
+Proof.
+  intros M X L R. pose proof (mv_W _ _ _ _ _ M) as W.
+  destruct (mv_np _ _ _ _ _ M p eq_refl) as [Hpc [Hanc [Hi [Hnone Hmin]]]]. split.
+  - assert (Hout : ~ In (Some p) (tags (img (bsubtree s c)))).
+    { intros H. apply (bsubtree_members s c p W) in H. destruct H as [->|H]; [apply Hpc; reflexivity|exact (Hanc H)]. }
+    rewrite (moved_is_surgery s s' c (Some p) i M p Hout). cbn [bgraft_opt].
+    rewrite (bsubtree_unfold s p W). unfold bcut at 1. rewrite bcutl_B, !cutl_slot_sub, !rmset_one.
+    cbn [bgraft tag_is]. rewrite Nat.eqb_refl, !option_map_map.
+    assert (G : forall j, option_map (fun k => bgraft p (bsubtree s c) (bcutl [Some c] (bsubtree s k)))
+                            (rm c (slot (bkids s p) j))
+                          = option_map X (rm c (slot (bkids s p) j))).
+    { intros j. apply option_map_ext_in. intros k Hk. apply rm_Some in Hk. destruct Hk as [Hk _].
+      apply (bw_down s W) in Hk. apply bgraft_absent. intros Hin. apply tags_bcutl_incl in Hin.
+      exact (parent_not_in_child s p k W Hk Hin). }
+    rewrite !G. reflexivity.
+  - unfold L, R. destruct i as [|[|i']]; [left|right|lia]; rewrite Hnone; reflexivity.
+Qed.
+
+(* ========================================================================================== *)
+(* 4. the parent setter *)
+
+(* what the setter has done when it answers Ok (no well-formedness needed) *)
+Lemma set_parent_ok cfg ft s c a s' : bset_parent cfg ft s c a = (s', Ok) ->
+  a <> AJunk /\ bparent_loop s c (slot_of_arg a) = false
+  /\ bfull (bdetach s c) (slot_of_arg a) = false
+  /\ s' = battach (bdetach s c) c (slot_of_arg a).
+Proof.
+  unfold bset_parent. destruct a as [p| |]; cbv zeta; cbn [slot_of_arg]; [| |discriminate].
+  - destruct (bparent_loop s c (Some p)); [discriminate|]. destruct (fault_eqb ft PreFail); [discriminate|].
+    destruct (bcorrupted s c); [discriminate|]. destruct (bfull (bdetach s c) (Some p)); [discriminate|].
+    destruct (fault_eqb ft PostFail); [discriminate|]. intros [= <-].
+    split; [discriminate|]. repeat split.
+  - cbn [bparent_loop bfull]. destruct (fault_eqb ft PreFail); [discriminate|].
+    destruct (bcorrupted s c); [discriminate|]. destruct (fault_eqb ft PostFail); [discriminate|]. intros [= <-].
+    split; [discriminate|]. repeat split.
+Qed.
+
+Lemma attach_moved s (c p : id) : BWF s -> c < bsize s -> p < bsize s -> p <> c ->
+  ~ In c (bancestors s p) -> bfull (bdetach s c) (Some p) = false ->
+  exists i, first_empty (bkids (bdetach s c) p) = Some i
+            /\ moved s (battach (bdetach s c) c (Some p)) c (Some p) i.
+Proof.
+  intros W Hc Hp Hpc Hanc Hfull. destruct (attach_relinked s c p W Hc Hp Hpc Hanc Hfull) as [R V].
+  destruct (bfull_false _ _ Hfull) as [i E]. exists i. split; [exact E|].
+  destruct (first_empty_some _ _ E) as [Hi [Hnone Hmin]].
+  destruct (detach_kids s c p W) as [Hlen Hs].
+  constructor.
+  - exact W.
+  - exact (relink_BWF _ _ _ _ W V R).
+  - exact (rl_size _ _ _ _ R).
+  - intros q j. rewrite (attach_state s c p i E). cbn [bkids bset_kids bset_par tgt]. unfold upd.
+    destruct (Nat.eqb_spec q p) as [->|Hq]; cbn [andb].
+    + rewrite (sp_news_slot s c p i W E). reflexivity.
+    + destruct (detach_kids s c q W) as [_ Hsq]. apply Hsq.
+  - intros p0 [= <-]. split; [exact Hpc|]. split; [exact Hanc|].
+    split; [rewrite Hlen, (bw_len s W) in Hi; exact Hi|].
+    split; [rewrite <- Hs; exact Hnone|]. intros j Hj. rewrite <- Hs. apply Hmin. exact Hj.
+Qed.
+
+Lemma orphan_moved s c i : BWF s -> moved s (bset_par (bdetach s c) c None) c None i.
+Proof.
+  intros W. constructor; [exact W|apply orphan_BWF; exact W|apply detach_size| |discriminate].
+  intros q j. cbn [bkids bset_par tgt]. destruct (detach_kids s c q W) as [_ Hs]. apply Hs.
+Qed.
+
+(* an accepted parent assignment moves c out of its slot into the first empty slot of the new parent *)
+Theorem set_parent_moved cfg ft s c a s' : BWF s -> c < bsize s -> barg_in_range s a = true ->
+  bset_parent cfg ft s c a = (s', Ok) -> exists i, moved s s' c (slot_of_arg a) i.
+Proof.
+  intros W Hc Ha E. destruct (set_parent_ok cfg ft s c a s' E) as [Hj [HL [HF ->]]].
+  destruct a as [p| |]; cbn [slot_of_arg] in *; [| |congruence].
+  - destruct (loop_false s c p HL) as [Hpc Hanc]. unfold bin_range in Ha. apply Nat.ltb_lt in Ha.
+    destruct (attach_moved s c p W Hc Ha Hpc Hanc HF) as [i [_ Mv]]. exists i. exact Mv.
+  - exists 0. unfold battach. apply orphan_moved. exact W.
+Qed.
+
+(* the tree edit of `c.parent = np`: the c-subtree is intact and, below every node outside it, it is
+   cut out and written into the first empty slot of np *)
+Definition bsurgery (s s' : bheap) (c : id) (np : option id) : Prop :=
+  bsubtree s' c = bsubtree s c
+  /\ forall r, ~ In (Some r) (tags (img (bsubtree s c))) ->
+       bsubtree s' r = bgraft_opt np (bsubtree s c) (bcut c (bsubtree s r)).
+
+Lemma moved_bsurgery s s' c np i : moved s s' c np i -> bsurgery s s' c np.
+Proof. intros M. split; [exact (moved_intact _ _ _ _ _ M)|]. intros r. exact (moved_is_surgery _ _ _ _ _ M r). Qed.
+
+Theorem set_parent_is_bsurgery cfg ft s c a s' :
+  BWF s -> c < bsize s -> barg_in_range s a = true ->
+  bset_parent cfg ft s c a = (s', Ok) -> bsurgery s s' c (slot_of_arg a).
+Proof.
+  intros W Hc Ha E. destruct (set_parent_moved cfg ft s c a s' W Hc Ha E) as [i M].
+  exact (moved_bsurgery _ _ _ _ _ M).
+Qed.
+
+(* (2a) *)
+Theorem set_parent_subtree_intact cfg ft s c a s' :
+  BWF s -> c < bsize s -> barg_in_range s a = true ->
+  bset_parent cfg ft s c a = (s', Ok) -> bsubtree s' c = bsubtree s c.
+Proof. intros W Hc Ha E. exact (proj1 (set_parent_is_bsurgery cfg ft s c a s' W Hc Ha E)). Qed.
+
+(* (2b) *)
+Theorem set_parent_frame cfg ft s c a s' :
+  BWF s -> c < bsize s -> barg_in_range s a = true ->
+  bset_parent cfg ft s c a = (s', Ok) ->
+  forall x, (forall q, bpar s c = Some q -> ~ In (Some q) (tags (img (bsubtree s x)))) ->
+            (forall p, slot_of_arg a = Some p -> ~ In (Some p) (tags (img (bsubtree s x)))) ->
+            bsubtree s' x = bsubtree s x.
+Proof.
+  intros W Hc Ha E x. destruct (set_parent_moved cfg ft s c a s' W Hc Ha E) as [i M].
+  exact (moved_frame _ _ _ _ _ M x).
+Qed.
+
+(* (2c) *)
+Theorem set_parent_new_parent cfg ft s c (p : id) s' :
+  BWF s -> c < bsize s -> p < bsize s ->
+  bset_parent cfg ft s c (ANode p) = (s', Ok) ->
+  let X := fun k => bcut c (bsubtree s k) in
+  let L := option_map X (rm c (slot (bkids s p) 0)) in
+  let R := option_map X (rm c (slot (bkids s p) 1)) in
+  bsubtree s' p = B (Some p) (fst (bfill (bsubtree s c) L R)) (snd (bfill (bsubtree s c) L R))
+  /\ (L = None \/ R = None).
+Proof.
+  intros W Hc Hp E. apply Nat.ltb_lt in Hp.
+  destruct (set_parent_moved cfg ft s c (ANode p) s' W Hc Hp E) as [i M].
+  exact (moved_new_parent s s' c p i M).
+Qed.
+
+Lemma rm_self c : rm c (Some c) = None.
+Proof. unfold rm. rewrite Nat.eqb_refl. reflexivity. Qed.
+
+Lemma bleft_bsubtree s x : BWF s -> bleft (bsubtree s x) = option_map (bsubtree s) (slot (bkids s x) 0).
+Proof. intros W. rewrite (bsubtree_unfold s x W) at 1. reflexivity. Qed.
+Lemma bright_bsubtree s x : BWF s -> bright (bsubtree s x) = option_map (bsubtree s) (slot (bkids s x) 1).
+Proof. intros W. rewrite (bsubtree_unfold s x W) at 1. reflexivity. Qed.
+
+(* (2d) the old parent q, when q is not the new parent p and p is not below q *)
+Theorem set_parent_old_parent cfg ft s c (p q : id) s' :
+  BWF s -> c < bsize s -> p < bsize s ->
+  bset_parent cfg ft s c (ANode p) = (s', Ok) ->
+  bpar s c = Some q -> q <> p -> ~ In (Some p) (tags (img (bsubtree s q))) ->
+  bsubtree s' q = B (Some q) (option_map (bsubtree s) (rm c (slot (bkids s q) 0)))
+                             (option_map (bsubtree s) (rm c (slot (bkids s q) 1)))
+  /\ (slot (bkids s q) 0 = Some c -> bsubtree s' q = B (Some q) None (bright (bsubtree s q)))
+  /\ (slot (bkids s q) 1 = Some c -> bsubtree s' q = B (Some q) (bleft (bsubtree s q)) None).
+Proof.
+  intros W Hc Hp E Eq Hqp Hout. apply Nat.ltb_lt in Hp.
+  destruct (set_parent_moved cfg ft s c (ANode p) s' W Hc Hp E) as [i M]. cbn [slot_of_arg] in M.
+  assert (H : bsubtree s' q = B (Some q) (option_map (bsubtree s) (rm c (slot (bkids s q) 0)))
+                                         (option_map (bsubtree s) (rm c (slot (bkids s q) 1)))).
+  { apply (moved_old_parent _ _ _ _ _ M q Eq); [congruence|]. intros p0 [= <-]. exact Hout. }
+  split; [exact H|]. split; intros Hs; rewrite H, Hs, rm_self; cbn [option_map].
+  - rewrite (bright_bsubtree s q W). f_equal. f_equal. apply rm_absent. intros H1.
+    pose proof (bw_once s W q 0 1 c Hs H1). discriminate.
+  - rewrite (bleft_bsubtree s q W). f_equal. f_equal. apply rm_absent. intros H0.
+    pose proof (bw_once s W q 0 1 c H0 Hs). discriminate.
+Qed.
+
+(* (3) c.parent = None *)
+Theorem set_parent_none_edit cfg ft s c s' :
+  BWF s -> c < bsize s ->
+  bset_parent cfg ft s c ANone = (s', Ok) ->
+  bsubtree s' c = bsubtree s c
+  /\ (forall q, bpar s c = Some q ->
+        bsubtree s' q = B (Some q) (option_map (bsubtree s) (rm c (slot (bkids s q) 0)))
+                                   (option_map (bsubtree s) (rm c (slot (bkids s q) 1))))
+  /\ (forall x, (forall q, bpar s c = Some q -> ~ In (Some q) (tags (img (bsubtree s x)))) ->
+                bsubtree s' x = bsubtree s x)
+  /\ (forall r, ~ In (Some r) (tags (img (bsubtree s c))) -> bsubtree s' r = bcut c (bsubtree s r)).
+Proof.
+  intros W Hc E. destruct (set_parent_moved cfg ft s c ANone s' W Hc eq_refl E) as [i M]. cbn [slot_of_arg] in M.
+  split; [exact (moved_intact _ _ _ _ _ M)|].
+  split; [intros q Eq; apply (moved_old_parent _ _ _ _ _ M q Eq); discriminate|].
+  split; [intros x Hx; apply (moved_frame _ _ _ _ _ M x Hx); discriminate|].
+  intros r Hr. exact (moved_is_surgery _ _ _ _ _ M r Hr).
+Qed.
+
+(* ========================================================================================== *)
+(* 5. del p.children *)
+
+Theorem del_children_is_edit s (p : id) : BWF s ->
+  let s' := bdel_children s p in
+  bsubtree s' p = B (Some p) None None
+  /\ (forall x, ~ In (Some p) (tags (img (bsubtree s x))) -> bsubtree s' x = bsubtree s x)
+  /\ (forall j k, slot (bkids s p) j = Some k -> bsubtree s' k = bsubtree s k).
+Proof.
+  intros W. cbv zeta. destruct (len2 _ (bw_len s W p)) as [l [r E]].
+  destruct (del_state s p l r W E) as [S [_ K]].
+  assert (Hfr : forall x, ~ In (Some p) (tags (img (bsubtree s x))) ->
+                          bsubtree (bdel_children s p) x = bsubtree s x).
+  { intros x Hx. apply bsubtree_frame; [exact S|]. intros y Hy. rewrite K.
+    destruct (Nat.eqb_spec y p) as [->|_]; [contradiction|reflexivity]. }
+  split; [|split; [exact Hfr|]].
+  - unfold bsubtree. rewrite btree_of_S, K, Nat.eqb_refl. reflexivity.
+  - intros j k Hk. apply Hfr. apply (bw_down s W) in Hk. exact (parent_not_in_child s p k W Hk).
+Qed.
+
+(* ========================================================================================== *)
+(* 6. relinking (p gets the slot list `news`, BinaryProofs.v) as a tree edit: below EVERY node r the
+      members of `news` are cut out wherever they were and both slots of p are overwritten with the
+      subtrees of the new occupants (themselves with the members of `news` cut out) *)
+
+Definition relink_edit (s s' : bheap) (p : id) (news : list (option id)) : Prop :=
+  forall r, bsubtree s' r =
+    bput p (option_map (fun k => bcutl news (bsubtree s k)) (slot news 0))
+           (option_map (fun k => bcutl news (bsubtree s k)) (slot news 1))
+           (bcutl news (bsubtree s r)).
+
+Theorem relink_is_edit s s' p news :
+  BWF s -> valid_news s p news -> relinked s s' p news -> relink_edit s s' p news.
+Proof.
+  intros W V R. pose proof (relink_BWF _ _ _ _ W V R) as W'.
+  set (X := fun k => bcutl news (bsubtree s k)).
+  set (L := option_map X (slot news 0)). set (Rr := option_map X (slot news 1)).
+  unfold relink_edit. fold X. fold L. fold Rr.
+  apply (bheap_ind s' (fun r => bsubtree s' r = bput p L Rr (bcutl news (bsubtree s r))) W').
+  intros r IHk.
+  rewrite (bsubtree_unfold s' r W'), (bsubtree_unfold s r W), bcutl_B, bput_B. cbn [tag_is].
+  destruct (Nat.eqb_spec r p) as [->|Hne].
+  - assert (G : forall j, option_map (bsubtree s') (slot (bkids s' p) j) = option_map X (slot news j)).
+    { intros j. rewrite (rl_kids_p _ _ _ _ R). apply option_map_ext_in. intros k Hk.
+      rewrite (IHk j k) by (rewrite (rl_kids_p _ _ _ _ R); exact Hk).
+      apply bput_absent. intros Hin. apply tags_bcutl_incl in Hin. apply (bsubtree_members s k p W) in Hin.
+      destruct (vn_in _ _ _ V k (slot_In _ _ _ Hk)) as [_ [H1 H2]].
+      destruct Hin as [Hin|Hin]; [apply H1; symmetry; exact Hin|exact (H2 Hin)]. }
+    rewrite !G. reflexivity.
+  - rewrite !cutl_slot_sub, !option_map_map.
+    assert (G : forall j, option_map (bsubtree s') (slot (bkids s' r) j)
+                          = option_map (fun k => bput p L Rr (bcutl news (bsubtree s k)))
+                                       (rmset news (slot (bkids s r) j))).
+    { intros j. rewrite <- (rl_kids _ _ _ _ R r j Hne). apply option_map_ext_in. intros k Hk. exact (IHk j k Hk). }
+    rewrite !G. reflexivity.
+Qed.
+
+(* the two closed forms: at p, and wherever p does not occur *)
+Theorem relink_edit_at s s' p news : BWF s -> relink_edit s s' p news ->
+  bsubtree s' p = B (Some p) (option_map (fun k => bcutl news (bsubtree s k)) (slot news 0))
+                             (option_map (fun k => bcutl news (bsubtree s k)) (slot news 1)).
+Proof.
+  intros W H. rewrite (H p), (bsubtree_unfold s p W), bcutl_B, bput_B. cbn [tag_is].
+  rewrite Nat.eqb_refl. reflexivity.
+Qed.
+
+Theorem relink_edit_frame s s' p news r : relink_edit s s' p news ->
+  ~ In (Some p) (tags (img (bsubtree s r))) -> bsubtree s' r = bcutl news (bsubtree s r).
+Proof.
+  intros H Hr. rewrite (H r). apply bput_absent. intros Hin. apply tags_bcutl_incl in Hin. exact (Hr Hin).
+Qed.
+
+(* ---- p.children = [a1; a2] ---- *)
+Theorem set_children_is_edit cfg ft s (p : id) cont args s' :
+  BWF s -> p < bsize s -> forallb (barg_in_range s) args = true ->
+  bset_children cfg ft s p cont args = (s', Ok) ->
+  exists a1 a2, norm_args args = [a1; a2] /\ relink_edit s s' p [slot_of_arg a1; slot_of_arg a2].
+Proof.
+  intros W Hp Hr E.
+  destruct (children_accepted cfg ft s p cont args W Hp Hr) as [a1 [a2 [EN [_ [_ [R V]]]]]];
+    [rewrite E; reflexivity|].
+  rewrite E in R. cbn [fst] in R. exists a1, a2. split; [exact EN|]. exact (relink_is_edit _ _ _ _ W V R).
+Qed.
+
+Lemma slot_of_arg_of_slot o : slot_of_arg (arg_of_slot o) = o.
+Proof. destruct o; reflexivity. Qed.
+
+(* ---- p.left = a / p.right = a: the children setter with the other slot as it is ---- *)
+Theorem set_left_is_edit cfg ft s (p : id) a s' :
+  BWF s -> p < bsize s -> barg_in_range s a = true ->
+  bset_left cfg ft s p a = (s', Ok) -> relink_edit s s' p [slot_of_arg a; slot (bkids s p) 1].
+Proof.
+  intros W Hp Ha E. unfold bset_left, right_of in E.
+  destruct (nth_error (bkids s p) 1) as [r|] eqn:En; [|discriminate].
+  assert (Hr : forallb (barg_in_range s) [a; arg_of_slot r] = true).
+  { cbn [forallb]. rewrite Ha, (arg_of_slot_range s p 1 r W En). reflexivity. }
+  destruct (set_children_is_edit cfg ft s p CList _ s' W Hp Hr E) as [a1 [a2 [EN H]]].
+  cbn [norm_args] in EN. injection EN as <- <-. rewrite slot_of_arg_of_slot in H.
+  rewrite (nth_error_slot _ _ _ En). exact H.
+Qed.
+
+Theorem set_right_is_edit cfg ft s (p : id) a s' :
+  BWF s -> p < bsize s -> barg_in_range s a = true ->
+  bset_right cfg ft s p a = (s', Ok) -> relink_edit s s' p [slot (bkids s p) 0; slot_of_arg a].
+Proof.
+  intros W Hp Ha E. unfold bset_right, left_of in E.
+  destruct (nth_error (bkids s p) 0) as [l|] eqn:En; [|discriminate].
+  assert (Hr : forallb (barg_in_range s) [arg_of_slot l; a] = true).
+  { cbn [forallb]. rewrite Ha, (arg_of_slot_range s p 0 l W En). reflexivity. }
+  destruct (set_children_is_edit cfg ft s p CList _ s' W Hp Hr E) as [a1 [a2 [EN H]]].
+  cbn [norm_args] in EN. injection EN as <- <-. rewrite slot_of_arg_of_slot in H.
+  rewrite (nth_error_slot _ _ _ En). exact H.
+Qed.
+
+(* ---- sort ---- *)
+Lemma sort_kids s (p : id) key rev : BWF s ->
+  (forall q, q <> p -> bkids (bsort s p key rev) q = bkids s q)
+  /\ (bkids (bsort s p key rev) p = bkids s p
+      \/ bkids (bsort s p key rev) p = [slot (bkids s p) 1; slot (bkids s p) 0]).
+Proof.
+  intros W. unfold bsort. destruct (len2 _ (bw_len s W p)) as [l [r E]]. rewrite E.
+  destruct l as [c|]; destruct r as [d|]; cbn [somes length Nat.eqb];
+    try (split; [reflexivity|left; exact E]).
+  destruct (py_sort_two key rev c d) as [-> | ->]; cbn [map bkids bset_kids];
+    (split; [intros q Hq; apply upd_other; exact Hq|]); rewrite upd_same; [left|right]; reflexivity.
+Qed.
+
+(* the two slots of p are kept or swapped (with their subtrees); nothing else changes *)
+Theorem sort_is_edit s (p : id) key rev : BWF s -> p < bsize s ->
+  let s' := bsort s p key rev in
+  (forall x, ~ In (Some p) (tags (img (bsubtree s x))) -> bsubtree s' x = bsubtree s x)
+  /\ (bsubtree s' p = bsubtree s p
+      \/ bsubtree s' p = B (Some p) (bright (bsubtree s p)) (bleft (bsubtree s p))).
+Proof.
+  intros W Hp. cbv zeta. destruct (sort_kids s p key rev W) as [Hq Hk].
+  pose proof (sort_BWF s p key rev W Hp) as W'.
+  assert (Hfr : forall x, ~ In (Some p) (tags (img (bsubtree s x))) ->
+                          bsubtree (bsort s p key rev) x = bsubtree s x).
+  { intros x Hx. apply bsubtree_frame; [apply sort_size|]. intros y Hy. apply Hq. intros ->. exact (Hx Hy). }
+  split; [exact Hfr|].
+  assert (G : forall j, option_map (bsubtree (bsort s p key rev)) (slot (bkids s p) j)
+                        = option_map (bsubtree s) (slot (bkids s p) j)).
+  { intros j. apply option_map_ext_in. intros k Hk'. apply Hfr. apply (bw_down s W) in Hk'.
+    exact (parent_not_in_child s p k W Hk'). }
+  rewrite (bsubtree_unfold _ p W'). destruct Hk as [-> | ->].
+  - left. rewrite !G. symmetry. apply bsubtree_unfold. exact W.
+  - right. rewrite !slot2, !G, (bleft_bsubtree s p W), (bright_bsubtree s p W). reflexivity.
+Qed.
+
+(* ---- extend: one accepted parent assignment after the other ---- *)
+Fixpoint bappend_chain (s : bheap) (p : id) (cs : list id) (s' : bheap) : Prop :=
+  match cs with
+  | [] => s' = s
+  | c :: t => exists s1, BWF s1 /\ bsurgery s s1 c (Some p) /\ bappend_chain s1 p t s'
+  end.
+
+Theorem extend_is_surgeries cfg (p : id) : forall cs fts s s',
+  BWF s -> p < bsize s -> forallb (bin_range s) cs = true ->
+  bextend_loop cfg s p cs fts = (s', Ok) -> bappend_chain s p cs s'.
+Proof.
+  induction cs as [|c t IH]; intros fts s s' W Hp Hr E; cbn [bextend_loop bappend_chain] in *.
+  - injection E as <-. reflexivity.
+  - cbn [forallb] in Hr. apply andb_true_iff in Hr. destruct Hr as [Hc Ht]. apply Nat.ltb_lt in Hc.
+    assert (Ha : barg_in_range s (ANode p) = true) by (apply Nat.ltb_lt; exact Hp).
+    destruct (set_parent_sound cfg (hd NoFault fts) s c (ANode p) W Hc Ha) as [_ W1].
+    pose proof (set_parent_size cfg (hd NoFault fts) s c (ANode p) W Hc Ha) as S1.
+    destruct (bset_parent cfg (hd NoFault fts) s c (ANode p)) as [s1 o] eqn:E1. cbn [fst] in *.
+    destruct o; [|discriminate]. exists s1. split; [exact W1|].
+    split; [exact (set_parent_is_bsurgery cfg _ s c (ANode p) s1 W Hc Ha E1)|].
+    apply (IH (tl fts) s1 s' W1); [rewrite S1; exact Hp| |exact E].
+    unfold bin_range in *. rewrite S1. exact Ht.
+Qed.
+
+(* ---- the constructor: a fresh childless root, then the parent setter, then the children setter ---- *)
+Lemma balloc_bsubtree s x : BWF s -> bsubtree (balloc s) x = bsubtree s x.
+Proof.
+  intros W. unfold bsubtree at 1. cbn [balloc bsize].
+  rewrite <- (btree_of_any_fuel s x (S (bsize s)) W) by lia.
+  apply btree_of_frame. intros y _.
+  assert (G : forall j, slot (bkids (balloc s) y) j = slot (bkids s y) j).
+  { intros j. cbn [balloc bkids]. unfold upd. destruct (Nat.eqb_spec y (bsize s)) as [->|_]; [|reflexivity].
+    rewrite (bslot_none_outside s (bsize s) j W (le_n _)), slot2. destruct j as [|[|j]]; reflexivity. }
+  split; apply G.
+Qed.
+
+Definition bnew_edit (s s' : bheap) (par : arg) : Prop :=
+  exists s1 a1 a2,
+    bsurgery (balloc s) s1 (bsize s) (slot_of_arg par)
+    /\ relink_edit s1 s' (bsize s) [slot_of_arg a1; slot_of_arg a2].
+
+Theorem new_is_edit cfg s l r par ch fp fc s' : BWF s ->
+  barg_in_range s l = true -> barg_in_range s r = true -> barg_in_range s par = true ->
+  forallb (barg_in_range s) ch = true ->
+  bnew cfg s l r par ch fp fc = (s', Ok) ->
+  (forall x, bsubtree (balloc s) x = bsubtree s x) /\ bnew_edit s s' par.
+Proof.
+  intros W Rl Rr Rp Rch E. split; [intros x; apply balloc_bsubtree; exact W|].
+  unfold bnew in E. cbv zeta in E.
+  pose proof (alloc_BWF s W) as W0.
+  assert (Hx : bsize s < bsize (balloc s)) by (cbn [balloc bsize]; lia).
+  match type of E with context [if ?b then _ else _] => destruct b end; [discriminate|].
+  assert (Rp0 : barg_in_range (balloc s) par = true) by (eapply arg_range_mono; [|exact Rp]; lia).
+  destruct (set_parent_sound cfg fp (balloc s) (bsize s) par W0 Hx Rp0) as [_ W1].
+  pose proof (set_parent_size cfg fp (balloc s) (bsize s) par W0 Hx Rp0) as S1.
+  destruct (bset_parent cfg fp (balloc s) (bsize s) par) as [s1 o] eqn:E1. cbn [fst] in *.
+  destruct o; [|discriminate].
+  assert (Hm : forall a, barg_in_range s a = true -> barg_in_range s1 a = true).
+  { intros a. apply arg_range_mono. rewrite S1. lia. }
+  assert (Rc : forallb (barg_in_range s1) match ch with [] => [l; r] | _ :: _ => ch end = true).
+  { destruct ch as [|c0 t0].
+    - cbn [forallb]. rewrite (Hm _ Rl), (Hm _ Rr). reflexivity.
+    - apply forallb_forall. intros a Ha. apply Hm. rewrite forallb_forall in Rch. apply Rch. exact Ha. }
+  destruct (set_children_is_edit cfg fc s1 (bsize s) CList _ s' W1 ltac:(rewrite S1; exact Hx) Rc E)
+    as [a1 [a2 [_ H]]].
+  exists s1, a1, a2. split; [|exact H].
+  exact (set_parent_is_bsurgery cfg fp (balloc s) (bsize s) par s1 W0 Hx Rp0 E1).
+Qed.
+
+(* ========================================================================================== *)
+(* 7. every accepted operation of the BinaryNode API is a binary-tree edit *)
+
+Definition bedit_of (s s' : bheap) (o : bop) : Prop :=
+  match o with
+  | BSetParent c a _ => bsurgery s s' c (slot_of_arg a)
+  | BSetChildren p _ args _ =>
+      exists a1 a2, norm_args args = [a1; a2] /\ relink_edit s s' p [slot_of_arg a1; slot_of_arg a2]
+  | BSetLeft p a _ => relink_edit s s' p [slot_of_arg a; slot (bkids s p) 1]
+  | BSetRight p a _ => relink_edit s s' p [slot (bkids s p) 0; slot_of_arg a]
+  | BDelChildren p =>
+      bsubtree s' p = B (Some p) None None
+      /\ forall x, ~ In (Some p) (tags (img (bsubtree s x))) -> bsubtree s' x = bsubtree s x
+  | BSort p _ _ =>
+      (forall x, ~ In (Some p) (tags (img (bsubtree s x))) -> bsubtree s' x = bsubtree s x)
+      /\ (bsubtree s' p = bsubtree s p
+          \/ bsubtree s' p = B (Some p) (bright (bsubtree s p)) (bleft (bsubtree s p)))
+  | BExtend p cs _ => bappend_chain s p cs s'
+  | BNew _ _ par _ _ _ => (forall x, bsubtree (balloc s) x = bsubtree s x) /\ bnew_edit s s' par
+  end.
+
+Theorem bstep_is_btree_edit cfg s o s' :
+  BWF s -> bstep cfg s o = (s', Ok) -> bedit_of s s' o.
+Proof.
+  intros W E. unfold bstep in E. destruct (bop_in_range s o) eqn:Er; cbn [negb] in E; [|discriminate].
+  destruct o; cbn [bop_in_range bedit_of] in *;
+    repeat (apply andb_true_iff in Er; destruct Er as [Er ?]);
+    unfold bin_range in *; try (apply Nat.ltb_lt in Er).
+  - exact (set_parent_is_bsurgery cfg ft s c a s' W Er H E).
+  - exact (set_children_is_edit cfg ft s p cont args s' W Er H E).
+  - exact (set_left_is_edit cfg ft s p a s' W Er H E).
+  - exact (set_right_is_edit cfg ft s p a s' W Er H E).
+  - injection E as <-. destruct (del_children_is_edit s p W) as [H1 [H2 _]]. split; assumption.
+  - injection E as <-. exact (sort_is_edit s p _ reverse W Er).
+  - exact (extend_is_surgeries cfg p cs fts s s' W Er H E).
+  - exact (new_is_edit cfg s l r par ch fp fc s' W Er H1 H0 H E).
 Qed.
